@@ -8,6 +8,7 @@ package main
 import (
 	"github.com/fluhus/gostuff/minhash"
 	"compress/gzip"
+	"bufio"
 	"bytes"
 	"fmt"
 	"io"
@@ -256,6 +257,27 @@ func (c *Ctx) specialInputs(name string) []wfInput {
 		o := plainSam("other")
 		o.Tags = map[string]any{"XH": []byte{9}}
 		out = append(out, samInput(name, []string{"@HD\tVN:1", "@HD\tVN:1"}, []*sam.SAM{mk(), mk(), mk(), o, mk(), plainSam("notags"), mk()}, "identical lines (with H, Z, i, A, f tags) repeated"))
+		// records with very many optional fields (53, 54, 64, 65, 300 tags of all types)
+		for _, nt := range []int{53, 54, 64, 65, 300} {
+			r := plainSam("many")
+			r.Tags = map[string]any{}
+			for i := 0; i < nt; i++ {
+				nm := string([]byte{byte('A' + i%26), byte('a' + (i/26)%26)})
+				switch i % 5 {
+				case 0:
+					r.Tags[nm] = i
+				case 1:
+					r.Tags[nm] = fmt.Sprintf("v%d", i)
+				case 2:
+					r.Tags[nm] = byte('!' + i%90)
+				case 3:
+					r.Tags[nm] = float64(i) + 0.5
+				case 4:
+					r.Tags[nm] = []byte{byte(i), byte(i >> 8)}
+				}
+			}
+			out = append(out, samInput(name, nil, []*sam.SAM{plainSam("a"), r, plainSam("b")}, fmt.Sprintf("a record with %d optional fields", nt)))
+		}
 		// the SAME tag name in consecutive records with the SAME value text under different types (XS:i:7, XS:Z:7, XS:A:7,
 		// XS:f:7; XT:i:10, XT:H:10, XT:Z:10): what one record's tag was must not colour the next record's
 		retyped := func(vals ...any) []*sam.SAM {
@@ -569,6 +591,14 @@ func errorClassInputs(name string) [][]byte {
 			wrap(g, bad)
 			wrap("@HD\tVN:1\n"+g, bad)
 		}
+		// long lines (beyond 4096 and 65536 bytes): a malformed long line directly followed by a good long line
+		for _, L := range []int{5000, 9000, 70000} {
+			long := strings.Repeat("ACGT", L/4)
+			gl := "ql\t0\tr\t1\t2\t*\t=\t3\t4\t" + long + "\t" + long + "\tXA:i:1\n"
+			for _, bl := range []string{"qb\t1x\tr\t1\t2\t*\t=\t3\t4\t" + long + "\t" + long + "\n", "qb\t0\tr\t1\t2\t*\t=\t3\t4\t" + long + "\n", "qb\t0\tr\t1\t2\t*\t=\t3\t4\t" + long + "\t" + long + "\tXA:i:x\n"} {
+				out = append(out, []byte(g+bl+gl+g), []byte(gl+bl+gl+gl), []byte(bl+bl+gl))
+			}
+		}
 	case "bed":
 		g := "c\t1\t9\tn\t5\t+\t2\t3\t1,2,3\t2\t1,2\t0,5\n"
 		f := strings.Split(strings.TrimSuffix(g, "\n"), "\t")
@@ -643,6 +673,13 @@ func specialCases(c *Ctx, name string) {
 		if got != in.want {
 			oracle = fmt.Sprintf("%s: read(write(records)) != records (%s): got %d items, status %q", name, in.desc, len(items), st)
 		}
+		// the same bytes handed over as the concrete reader types a caller is likely to use
+		for what, r := range map[string]io.Reader{"a *bufio.Reader": bufio.NewReader(bytes.NewReader(in.data)), "a *bufio.Reader with a 16-byte buffer": bufio.NewReaderSize(bytes.NewReader(in.data), 16),
+			"a *bytes.Buffer": bytes.NewBuffer(append([]byte(nil), in.data...)), "a *strings.Reader": strings.NewReader(string(in.data))} {
+			if got2 := itemsStr(f.decode(r, 0, 64)); got2 != in.want && oracle == "" {
+				oracle = fmt.Sprintf("%s: the records read from %s differ from the records written (%s): %s", name, what, in.desc, trunc(got2, 80))
+			}
+		}
 		c.add(Case{Kind: "huge-input", Nontrivial: true, Oracle: oracle, Note: fmt.Sprintf("%s input of %d bytes, %s", name, len(in.data), in.desc)})
 	}
 	scribbleCases(c, name)
@@ -675,6 +712,11 @@ func deliveryCases(c *Ctx, f *format) {
 		try(&chunkReader{data: in.data, sizes: []int{3, 0, 7}}, "3, empty, 7 …")
 		try(&chunkReader{data: in.data, sizes: []int{4096}}, "4096-byte chunks")
 		try(&chunkReader{data: in.data, withEOF: true}, "everything together with EOF")
+		// the concrete reader types a caller is likely to hand over (code may treat them specially)
+		try(bufio.NewReader(bytes.NewReader(in.data)), "as a *bufio.Reader")
+		try(bufio.NewReaderSize(bytes.NewReader(in.data), 16), "as a *bufio.Reader with a 16-byte buffer")
+		try(bytes.NewBuffer(append([]byte(nil), in.data...)), "as a *bytes.Buffer")
+		try(strings.NewReader(string(in.data)), "as a *strings.Reader")
 		if len(in.data) < 50000 && !bytes.Contains(in.data, []byte("\r")) && !strings.HasPrefix(in.desc, "raw:") {
 			cr := crlf(in.data)
 			if f.name == "newick" {
@@ -2372,10 +2414,13 @@ func regionsRound7(c *Ctx) {
 		}
 	}
 	// the caller owns what At returns, however long it is
-	for _, depth := range []int{3, 256, 257, 300, 1000} {
+	for _, depth := range []int{3, 256, 257, 300, 1000, 4097, 5000, 20000} {
 		starts, ends := make([]int, depth+2), make([]int, depth+2)
 		for j := 0; j < depth; j++ {
 			starts[j], ends[j] = -j, 10+j
+			if depth > 1000 { // identical intervals: two breakpoints, one long list (a staircase this deep would be quadratic)
+				starts[j], ends[j] = -3, 10
+			}
 		}
 		starts[depth], ends[depth] = 20+depth, 30+depth
 		starts[depth+1], ends[depth+1] = 5, 6
@@ -2662,7 +2707,7 @@ func canonHugeStops(c *Ctx) {
 	// stops where a sequence handled W bases at a time would change windows: after m windows' worth of items
 	// (m*(W-k+1)), and at the items that start or end at base m*W
 	js := []int{1, 5, 1000, 1<<20 - 1, 1 << 20, 1<<20 + 1}
-	for _, W := range []int{4096, 8192, 65536, 1 << 18, 1 << 20} {
+	for _, W := range []int{4096, 8192, 16384, 32768, 65536, 1 << 17, 1 << 18, 1 << 19, 1 << 20} {
 		for m := 1; m <= 3; m++ {
 			for d := -1; d <= 1; d++ {
 				js = append(js, m*(W-k+1)+d, m*W-(k-1)+d, m*W+d)
@@ -2839,16 +2884,35 @@ func fastaLengthSweep(c *Ctx) {
 	if c.thor {
 		top = 72000
 	}
-	pat := make([]byte, top)
+	// beyond the full sweep: every length within 130 of j*B and of j*B*80/81 (where B bytes of OUTPUT, newlines
+	// included, are complete) for the buffer sizes B an implementation might choose
+	lens := make([]int, 0, top+8000)
+	for L := 0; L <= top; L++ {
+		lens = append(lens, L)
+	}
+	maxLen := top
+	for _, B := range []int{4096, 8192, 16384, 32768, 65536, 131072} {
+		for j := 1; j <= 2; j++ {
+			for _, center := range []int{j * B, j * B * 80 / 81} {
+				for L := center - 130; L <= center+130; L++ {
+					if L > top {
+						lens = append(lens, L)
+						maxLen = max(maxLen, L)
+					}
+				}
+			}
+		}
+	}
+	pat := make([]byte, maxLen)
 	for i := range pat {
 		pat[i] = "ACGTNacgtn"[(i*7+i/80)%10]
 	}
 	name := []byte("sweep")
 	var got bytes.Buffer
-	want := make([]byte, 0, top+top/80+16)
+	want := make([]byte, 0, maxLen+maxLen/80+16)
 	bad, badLen, cur := "", -1, 0
 	st := safe(func() string {
-		for L := 0; L <= top; L++ {
+		for _, L := range lens {
 			cur = L
 			got.Reset()
 			err := (&fasta.Fasta{Name: name, Sequence: pat[:L:L]}).Write(&got)
@@ -2867,7 +2931,7 @@ func fastaLengthSweep(c *Ctx) {
 				bad, badLen = fmt.Sprintf("Write produced %d bytes that are not '>'name, newline, the sequence 80 to a line (%d bytes expected)", got.Len(), len(want)), L
 				return ""
 			}
-			if L%997 == 0 || L == top {
+			if L%997 == 0 || L == top || (L > top && L%61 == 0) {
 				// the pre-computed length of MarshalText (it panics on a mismatch) at a spread of lengths too
 				mt, merr := (&fasta.Fasta{Name: name, Sequence: pat[:L:L]}).MarshalText()
 				if merr != nil || !bytes.Equal(mt, want) {
@@ -2884,7 +2948,7 @@ func fastaLengthSweep(c *Ctx) {
 	} else if bad != "" {
 		oracle = fmt.Sprintf("fasta: sequence length %d: %s", badLen, bad)
 	}
-	c.add(Case{Kind: "length-sweep", Nontrivial: true, Oracle: oracle, Note: fmt.Sprintf("fasta Write for every sequence length 0..%d against the stated layout", top)})
+	c.add(Case{Kind: "length-sweep", Nontrivial: true, Oracle: oracle, Note: fmt.Sprintf("fasta Write for every sequence length 0..%d and %d lengths around multiples of the usual buffer sizes up to %d, against the stated layout", top, len(lens)-top-1, maxLen)})
 }
 
 // regionsRound9: (a) the FIRST lookups of a fresh index arrive from many goroutines at once, on positions covered
@@ -3399,5 +3463,86 @@ func ncbiHugeLines(c *Ctx) {
 			oracle = fmt.Sprintf("ReadNCBI of a table with %s of %d bytes gives %s (%d pairs), want %s", name, n, got, len(m), want)
 		}
 		c.add(Case{Kind: "ncbi-huge-line", Nontrivial: true, Oracle: oracle, Note: fmt.Sprintf("ReadNCBI of a 2x2 table with %s of %d bytes", name, n)})
+	}
+}
+
+// alignHugeTable (C08): one Global alignment whose table has more than 2^23 cells (2900 x 2900), with integer scores
+// in the millions (exact in float64, far beyond float32): the steps must consume both sequences and re-score to
+// exactly the returned score.  A memory-saving representation chosen only for very large tables shows here.
+func alignHugeTable(c *Ctx) {
+	al := []byte("ab")
+	m := align.SubstitutionMatrix{}
+	for _, x := range al {
+		for _, y := range al {
+			m[[2]byte{x, y}] = -999983
+			if x == y {
+				m[[2]byte{x, y}] = 1000003
+			}
+		}
+		m[[2]byte{x, align.Gap}] = -1000001
+		m[[2]byte{align.Gap, x}] = -1000001
+	}
+	m[[2]byte{align.Gap, align.Gap}] = -7
+	n := 2900
+	a, b := c.bytesFrom(al, n), c.bytesFrom(al, n+3)
+	var steps []align.Step
+	var score float64
+	st := safe(func() string { steps, score = align.Global(a, b, m); return "" })
+	oracle := ""
+	if st == "PANIC" {
+		oracle = "Global panicked on two sequences of 2900 letters"
+	} else if sc, ai, bi, ok := rescore(m, a, b, steps); !ok || ai != len(a) || bi != len(b) {
+		oracle = "Global on two sequences of 2900 letters: the steps do not consume both sequences"
+	} else if sc != score {
+		oracle = fmt.Sprintf("Global on two sequences of 2900 letters (integer scores in the millions): returned score %v, the steps re-score to %v", score, sc)
+	}
+	c.add(Case{Kind: "huge-table", Nontrivial: true, Oracle: oracle, Note: "align.Global on 2900 x 2903 letters, scores +1000003 / -999983 / gap -1000001 / open -7"})
+}
+
+// regionsRound12: two indexes alive at once -- A is built and asked, B (as large, larger, smaller) is built and asked,
+// then A is asked again: what NewIndex keeps between calls must not be what an earlier Index still points into.
+func regionsRound12(c *Ctx) {
+	mk := func(n, lo int) ([]int, []int) {
+		s, e := make([]int, n), make([]int, n)
+		for j := range s {
+			s[j] = lo + c.rng.Intn(60)
+			e[j] = s[j] + 1 + c.rng.Intn(25)
+		}
+		return s, e
+	}
+	for i := 0; i < c.n(6); i++ {
+		na := 5 + c.rng.Intn(40)
+		sa, ea := mk(na, 0)
+		qs := []int{0, 3, 10, 22, 35, 50, 61, 80, -1}
+		oracle := ""
+		st := safe(func() string {
+			a := regions.NewIndex(sa, ea)
+			for _, q := range qs {
+				if got := a.At(q); !sameInts(got, bruteAt(sa, ea, q)) && oracle == "" {
+					oracle = fmt.Sprintf("first index: At(%d) = %v, brute force gives %v", q, got, bruteAt(sa, ea, q))
+				}
+			}
+			var others []*regions.Index
+			for _, nb := range []int{na, 2*na + 7, 3, 4 * na} {
+				sb, eb := mk(nb, 1000*len(others))
+				b := regions.NewIndex(sb, eb)
+				others = append(others, b)
+				for _, q := range []int{1000 * (len(others) - 1), 1000*(len(others)-1) + 30} {
+					if got := b.At(q); !sameInts(got, bruteAt(sb, eb, q)) && oracle == "" {
+						oracle = fmt.Sprintf("a later index: At(%d) = %v, brute force gives %v", q, got, bruteAt(sb, eb, q))
+					}
+				}
+				for _, q := range qs {
+					if got := a.At(q); !sameInts(got, bruteAt(sa, ea, q)) && oracle == "" {
+						oracle = fmt.Sprintf("the FIRST index, asked again after %d more indexes were built: At(%d) = %v, brute force gives %v", len(others), q, got, bruteAt(sa, ea, q))
+					}
+				}
+			}
+			return ""
+		})
+		if st == "PANIC" && oracle == "" {
+			oracle = "NewIndex/At panicked with several indexes alive"
+		}
+		c.add(Case{Kind: "regions-two-indexes", Nontrivial: true, Oracle: oracle, Note: fmt.Sprintf("an index over %d intervals asked again after each of four more indexes is built", na)})
 	}
 }
